@@ -90,4 +90,21 @@ Definition run_with (pick : N -> list trig_entry) (t : tree) : tree :=
   | _ => t_bad
   end.
 
-Definition run (t : tree) : tree := run_with pick_spec_table t.
+(* the specification tables themselves, for the Python-side independent reader *)
+Definition t_codec (c : codec) : tree :=
+  match c with
+  | CRaw => L [I 0] | CEnum E => L [I 1; t_bytes (codes_of_string E)] | CLoc => L [I 2] | CLocThrow => L [I 3]
+  | CStr => L [I 4] | CStrValue => L [I 5] | CCuwp => L [I 6] | CSwitch => L [I 7] | CAiScript => L [I 8]
+  end.
+
+Definition t_spec_entry (s : spec_entry) : tree :=
+  L [I (se_id s); t_bytes (codes_of_string (se_model s));
+     L (map (fun a => L [t_bytes (codes_of_string (fst (fst a))); t_codec (snd (fst a));
+                         t_bytes (codes_of_string (snd a))]) (se_args s))].
+
+Definition run (t : tree) : tree :=
+  match t with
+  | L [I 9; I 0] => L (map t_spec_entry spec_action_table)
+  | L [I 9; I 1] => L (map t_spec_entry spec_condition_table)
+  | _ => run_with pick_spec_table t
+  end.
